@@ -36,8 +36,8 @@ EXPLANATION = ("Exhaustive sub-space (both tiers): every labelled graph up to is
                "edge labels {single,double} (9689 graphs) and on 5 nodes over {C,O}x{single} - exact count, orbits, components, anchor and the "
                "WL-1 colours after 0,1,2,10 rounds are compared with the model and with brute force.  Everything else is seeded random / "
                "corpus sampling.  Theorems (coq/props/C11.v, all closed under the global context): C11_aut_count, C11_aut_group, "
-               "C11_orbits_exact, C11_wl_never_splits, C11_wfb_sound, C11_vf2_contract, C11_dedup_sublist, C11_prune_complete, "
-               "C11_prune_same_results.")
+               "C11_vf2_contract, C11_orbits_exact, C11_orbits_partition, C11_components, C11_wl_never_splits, C11_wfb_sound, "
+               "C11_dedup_sublist, C11_prune_complete, C11_prune_complete_aut, C11_prune_same_results.")
 TRUSTED_BASE = [
     "Coq 8.16.1 kernel + vm_compute (no native_compute)",
     "hand-written model coq/model/C11_Model.v tied to synkit/Graph/Matcher/{automorphism,auto_est,dedup_matches}.py and the pruning call of "
@@ -59,13 +59,12 @@ TESTED_NOT_PROVED = ["end-to-end: set of standardised reactions and of ITS hashe
                      "the proved half is: every raw match differs from a kept match by a rule automorphism)",
                      "whole-molecule templates (reaction-centre graph above the enumerator budget, about 17+ atoms) are outside the model's "
                      "evaluated domain: for them only the oracle runs (counted under outside_model_domain)",
-                     "that the listed components of a disconnected graph are pairwise disjoint (only coverage of all nodes is proved)",
                      "OrbitAccuracy metrics (orbit.py) are compared with a direct recomputation in the oracle only"]
 LEVEL_TEXT = ("Machine-checked proof (Coq, all inputs) over an executable model of Automorphism, AutoEst, both match de-duplicators and the pruning "
               "step of SynReactor.mappings(): the enumeration is a duplicate-free list of exactly the label-preserving automorphisms, which form a "
               "group; the reported count is its length (product over components for disconnected graphs, component swaps excluded as the code "
-              "documents); the reported orbits cover the nodes, are pairwise disjoint and two nodes share one IFF a listed automorphism maps one to "
-              "the other (per component for disconnected graphs); WL-1 colours after any number of rounds are preserved by every automorphism, so an "
+              "documents); the reported orbits partition the nodes and two nodes share one IFF a listed automorphism maps one to the other (for a "
+              "disconnected graph: an automorphism of their common component; the components are proved to be the connectivity classes); WL-1 colours after any number of rounds are preserved by every automorphism, so an "
               "estimated orbit never splits a true orbit; both de-duplicators and the pruning return a subsequence of their input; every pruned-away "
               "match differs from a kept match by a rule automorphism, so any result function invariant under rule automorphisms has the same image "
               "with and without pruning.  The model is tied to the code by a per-run correspondence on exhaustive small scopes, random graphs, "
